@@ -3,6 +3,7 @@ import os
 import random
 import re
 import sys
+import zlib
 
 from common import Check, coq_eval, parse_defs, parse_nlist, cstr, clist, cbool, copt
 
@@ -39,6 +40,13 @@ def render_block(key, b, params=(), value_tag=None):
         anns.append('(attributes %s)' % ' '.join('%s=%s' % kv for kv in b['attrs']))
     for name, opts in b['anns']:
         anns.append('(%s %s)' % (name, ' '.join(opts)) if opts else '(%s)' % name)
+    # annotation names are not case sensitive: "(Skip) (Rename-To x)" is what some libraries write
+    spelling = zlib.crc32(key.encode()) % 6
+    if spelling in (1, 4) and anns:
+        def respell(a):
+            m = re.match(r'^\(([a-z-]+)(.*)$', a, re.S)
+            return a if not m else '(' + (m.group(1).title() if spelling == 1 else m.group(1).upper()) + m.group(2)
+        anns = [respell(a) for a in anns]
     lines = ['/**', ' * %s:%s' % (key, (' ' + ' '.join(anns)) if anns else '')]
     for p in params:
         lines.append(' * @%s: a parameter' % p)
@@ -300,6 +308,58 @@ def find_el(ns, S, finder):
     return None
 
 
+def role_clauses(ck, S, ET, rng, n):
+    """(constructor) and (method) select the role where the signature permits it: a function returning the type, annotated
+    (constructor), is a constructor even when its first parameter has the constructed type (foo_thing_new_from_thing (FooThing *other));
+    without the annotation such a function is a method; (method) makes a function whose name does not carry the prefix a method"""
+    for i in range(n):
+        boxed = rng.random() < 0.4       # a class, or a registered (boxed) structure
+        syms = [S.FS(S.CSYMBOL_TYPE_TYPEDEF, 'FooThing', base_type=S.FT(S.CTYPE_STRUCT, '_FooThing'), line=5),
+                S.FS(S.CSYMBOL_TYPE_STRUCT, '_FooThing', base_type=S.FT(S.CTYPE_STRUCT, '_FooThing', child_list=[
+                    S.FS(S.CSYMBOL_TYPE_MEMBER, 'x', base_type=S.td('gint'), line=6) if boxed else
+                    S.FS(S.CSYMBOL_TYPE_MEMBER, 'parent', base_type=S.td('GObject'), line=6)]), line=6),
+                S.func('foo_thing_get_type', S.td('GType'), [], line=7)]
+        dump = ET.ElementTree(ET.fromstring('<?xml version="1.0"?><dump>%s</dump>' % (
+            '<boxed name="FooThing" get-type="foo_thing_get_type"/>' if boxed else
+            '<class name="FooThing" get-type="foo_thing_get_type" parents="GObject"/>')))
+        comments, want = [], {}
+        line = 10
+        for j, nm in enumerate(rng.sample(['new_from_thing', 'duplicate', 'derive', 'copy', 'merge', 'scaled'], rng.randint(2, 5))):
+            extra = [S.param('scale', S.td('gint'))] if rng.random() < 0.5 else []
+            first = rng.choice(['same', 'same', 'none', 'int'])
+            ps = ([S.param('other', S.ptr(S.td('FooThing')))] if first == 'same' else [S.param('n', S.td('gint'))] if first == 'int' else []) + extra
+            sym = 'foo_thing_' + nm
+            syms.append(S.func(sym, S.ptr(S.td('FooThing')), ps, line=line))
+            ann = rng.choice(['constructor', 'constructor', None, 'method' if first == 'same' else None])
+            if ann:
+                comments.append(('/**\n * %s: (%s)\n%s *\n * Returns: (transfer full): a thing\n */'
+                                 % (sym, ann, ''.join(' * @%s: a value\n' % p_.ident for p_ in ps)), '/src/foo.c', 1000 + 20 * j))
+            if ann == 'constructor' or (ann is None and first != 'same' and nm.startswith('new_')):
+                want[sym] = ('constructor', nm, [p_.ident for p_ in ps], ann)
+            elif first == 'same':
+                want[sym] = ('method', nm, [p_.ident for p_ in ps][1:], ann)
+            line += 1
+        try:
+            r = S.run(syms, comments=comments, includes=['GLib', 'GObject'], dump=dump, warnings=False)
+        except (Exception, SystemExit) as e:      # noqa
+            ck.failing_input('the scanner fails on annotated constructors: %r' % (e,), dict(comments=[c_[0] for c_ in comments]))
+            continue
+        ns = S.gir_ns(r.root)
+        rec = next((x for x in ns if x.get('name') == 'Thing'), None)
+        ck.count_case(dict(functions=sorted(want)), kind='roles')
+        for sym, (role, nm, pnames, ann) in want.items():
+            got = [(el.tag.replace(S.CORE, ''), el.get('name'),
+                    [q.get('name') for q in (el.find(S.CORE + 'parameters').findall(S.CORE + 'parameter') if el.find(S.CORE + 'parameters') is not None else [])])
+                   for el in ns.iter() if el.get(S.CNS + 'identifier') == sym]
+            if ann == 'method':
+                # the role is what the annotation selects; the name of an annotated method is left as the namespace prefix leaves it
+                got = [(g_[0], nm if g_[1] in (nm, 'thing_' + nm) else g_[1], g_[2]) for g_ in got]
+            if got != [(role, nm, pnames)] or rec is None:
+                ck.failing_input('a function %s is not described as the %s of its type' % ('annotated (%s)' % ann if ann else 'without role annotation', role),
+                                 dict(function=sym, annotation=ann, returns='FooThing*', type='boxed structure' if boxed else 'class', parameters_after_the_instance=pnames),
+                                 detail=dict(expected=[role, nm, pnames], got=got))
+
+
 def main(tier, seed):
     ck = Check('C03', tier, seed)
     ck.assumptions += ['declarations are SourceSymbol trees (stub lexer); the runtime dump is given as XML',
@@ -312,6 +372,7 @@ def main(tier, seed):
     rng = random.Random(seed)
     n = 40 if tier == 'quick' else 600
     items, worlds, vitems = [], [], []
+    role_clauses(ck, S, ET, rng, 12 if tier == 'quick' else 150)
     for i in range(n):
         w = gen_world(rng)
         comments = []
